@@ -84,10 +84,23 @@ func c04gen(r *gen.R) c04case {
 		if r.P(6) && key != "" {
 			key += gen.Pick(r, []string{".time", ".level", ".msg", ".caller", ".logger", "time", ".error"}) // names of the envelope as suffixes: still ordinary keys
 		}
+		if i > 0 && r.P(5) {
+			// two members whose names differ in letter case only (ID / id; the Kelvin sign and k): two members
+			if prev := c.kvs[i-1].Key; strings.ToUpper(prev) != prev {
+				key = strings.ToUpper(prev)
+			} else if strings.HasPrefix(prev, "k") {
+				key = "\u212a" + prev[1:]
+			}
+		}
 		v := r.Value(o, 0)
 		if r.P(5) {
 			v = r.AttrVal(o, 1) // an Attr / group Attr in value position
 			c.attrVals++
+		}
+		if key == "" && r.P(40) {
+			// the attribute with the EMPTY key is a group, one of whose members is called time and holds an instant: a
+			// member of a nested object like any other
+			v = gen.V{Kind: "group", Items: []gen.KV{{Key: "n", Val: r.Scalar("i", o)}, {Key: "time", Val: r.Scalar("time", o)}}}
 		}
 		c.kvs = append(c.kvs, gen.KV{Key: key, Val: v})
 	}
@@ -174,6 +187,7 @@ func c04main(c *Ctx) {
 		viaHandler := r.P(6)
 		var older stdslog.Handler
 		var rec stdslog.Record
+		zeroAttr := false
 		if viaHandler {
 			tsKnown = false
 			cs.caller, cs.lvl, cs.attrVals, cs.dups = false, slog.InfoLevel, 0, 0
@@ -191,10 +205,18 @@ func c04main(c *Ctx) {
 			_ = h.WithAttrs([]stdslog.Attr{a2})
 			kvs = append(kvs, kv1)
 			rec = stdslog.NewRecord(ts, stdslog.LevelInfo, cs.msg, 0)
-			for j := r.Intn(4); j > 0; j-- {
+			nr := r.Intn(4)
+			for j := nr; j > 0; j-- {
 				a, kv := c15attr(r, fmt.Sprintf("r%d~", j), 0)
 				rec.AddAttrs(a)
 				kvs = append(kvs, kv)
+				if j == nr && nr >= 2 && r.Bool() {
+					// a zero Attr in the middle of the record's attributes (log/slog asks handlers to ignore it): what
+					// comes after it is printed as always
+					rec.AddAttrs(stdslog.Attr{})
+					zeroAttr = true
+					c.R.Add("handler_records_with_a_zero_Attr_in_the_middle", 1)
+				}
 			}
 			cs.kvs = kvs
 			c.R.Add("records_through_a_derived_log_slog_handler_with_a_younger_sibling", 1)
@@ -274,6 +296,14 @@ func c04main(c *Ctx) {
 		}
 		payload := evs[0].Data
 		viols := c04check(payload, cs)
+		if zeroAttr && len(viols) > 0 {
+			// the zero Attr may also be shown (as "":null next to the record's attributes)
+			alt := cs
+			alt.kvs = append(append([]gen.KV(nil), cs.kvs...), gen.KV{Key: "", Val: gen.V{Kind: "nil"}})
+			if len(c04check(payload, alt)) == 0 {
+				viols = nil
+			}
+		}
 		if tsKnown && len(viols) == 0 {
 			fl := slog.GetFlags()
 			if layout, ok := c16flagTable[fl&(slog.Ldate|slog.Ltime|slog.Lmicroseconds)]; ok && ts.Year() >= 0 && ts.Year() <= 9999 {
